@@ -21,8 +21,9 @@ type Case struct {
 	A    int     `json:"a"`
 	B    int     `json:"b"`
 	N    int     `json:"n"`
-	Fix  int     `json:"fix,omitempty"` // fixture construction order, see kit.RootWindow; 3 = buffer produced by a growing Append (see runGrown)
-	Vals []int64 `json:"vals"`          // 0..127: representable in every element type
+	Over int     `json:"over,omitempty"` // >0: the (full) root got this many AppendSample calls, all rejected, before the window was sliced
+	Fix  int     `json:"fix,omitempty"`  // fixture construction order, see kit.RootWindow; 3 = buffer produced by a growing Append (see runGrown)
+	Vals []int64 `json:"vals"`           // 0..127: representable in every element type
 }
 
 var table = map[string]func(*Case) kit.Result{}
@@ -152,6 +153,14 @@ func run[T signal.SignalTypes](c *Case) (res kit.Result) {
 	}
 	C := c.C
 	root, w := kit.RootWindow[T](C, c.Kr, c.A, c.B, 0, c.Fix)
+	if c.Over > 0 && c.Over <= 8 {
+		// a history the window's parent may have had: it is full and was offered more samples
+		for k := 0; k < c.Over; k++ {
+			root.AppendSample(T(77))
+		}
+		w = root.Slice(c.A, c.B)
+		res.Class("parentOverranBeforeSlicing")
+	}
 	model := kit.RootModel[T](C, c.Kr)
 	rootHdr := kit.HdrOf(root)
 	off, ln, cp := C*c.A, C*(c.B-c.A), C*(c.Kr-c.A)
@@ -216,7 +225,7 @@ func run[T signal.SignalTypes](c *Case) (res kit.Result) {
 func FP(c *Case) uint64 {
 	h := kit.NewHasher()
 	h.Str(c.T)
-	h.Ints([]int{c.C, c.Kr, c.A, c.B, c.N, c.Fix, len(c.Vals)})
+	h.Ints([]int{c.C, c.Kr, c.A, c.B, c.N, c.Fix, c.Over, len(c.Vals)})
 	for _, v := range c.Vals {
 		h.Int(int(v))
 	}
@@ -245,6 +254,9 @@ func Gen(t *rapid.T) *Case {
 		c.N = rapid.IntRange(0, spare+2*c.C+3).Draw(t, "n")
 	}
 	c.Fix = rapid.IntRange(0, 2).Draw(t, "fix")
+	if rapid.IntRange(0, 3).Draw(t, "overSel") == 0 {
+		c.Over = rapid.IntRange(1, 3).Draw(t, "over")
+	}
 	if c.C >= 2 && rapid.IntRange(0, 4).Draw(t, "grownSel") == 0 {
 		// buffer produced by a growing Append with partial frames
 		c.Fix, c.Kr = 3, 0
